@@ -2,7 +2,7 @@
    If the strict interpretation [decided_b] accepts a trace, then for EVERY choice of instants inside the
    recorded brackets the reference semantics returns the observed booleans, hits/misses, values, counts and
    exported keys/values (outputs compared up to the exact deadline values: [out_sim]). *)
-From VF Require Import Common.Base C12.Model C12.Spec C12.Proofs C12.Proofs2 C12.Interval.
+From VF Require Import Common.Base C12.Model C12.Spec C12.Proofs C12.Proofs2 C12.F64 C12.Interval.
 Local Open Scope Z_scope.
 
 Definition Dp (p : Z * dent) (q : Z * entry) : Prop :=
@@ -59,8 +59,9 @@ Lemma sure_live_ok r d t b : sure_live r b = true -> in_range_b d r = true -> t 
 Proof.
   intros Hs Hr Ht. unfold expired. destruct r as [|L U]; simpl in *.
   - apply Z.eqb_eq in Hr. subst d. reflexivity.
-  - apply Z.leb_le in Hs. apply andb_true_iff in Hr as [Hr _]. apply andb_true_iff in Hr as [_ Hr].
-    apply Z.leb_le in Hr. apply andb_false_iff. right. apply Z.ltb_ge. lia.
+  - apply andb_true_iff in Hr as [Hr Hu]. apply andb_true_iff in Hr as [_ Hr].
+    apply Z.leb_le in Hr, Hu. apply andb_false_iff.
+    apply orb_true_iff in Hs as [Hs|Hs]; [apply Z.leb_le in Hs; right|apply Z.ltb_lt in Hs; left]; apply Z.ltb_ge; lia.
 Qed.
 
 Lemma sure_expired_ok r d t a : sure_expired r a = true -> in_range_b d r = true -> a <= t -> expired t d = true.
@@ -76,14 +77,29 @@ Variable fl : Z -> Z.
 Variable g defttl : Z.
 Hypothesis fl_mono : forall x y, x <= y -> fl x <= fl y.
 Hypothesis fl_nonneg : forall x, 0 <= x -> 0 <= fl x.
+Hypothesis fl_neg : forall x, x < 0 -> fl x < 0.
 Hypothesis fl_near : forall x, - g <= 2 * (fl x - x) <= g.
 
-Lemma in_range_new' a b t ttl : 0 < a -> a <= t <= b ->
-  in_range_b (new_expire defttl t ttl) (new_range defttl a b ttl) = true.
+Lemma in_range_new' a b t ttl r : 0 < a -> a <= t <= b -> new_range defttl a b ttl = Some r ->
+  in_range_b (new_expire defttl t ttl) r = true.
 Proof.
-  intros Ha Ht. unfold new_expire, new_range. destruct (eff_ttl defttl ttl) as [x|] eqn:E; simpl; [|reflexivity].
-  apply eff_ttl_pos in E. destruct (Z.eqb_spec (t + x) 0); [lia|]. simpl.
-  apply andb_true_iff. split; apply Z.leb_le; lia.
+  intros Ha Ht. unfold new_range, new_expire.
+  destruct (eff_ttl defttl ttl) as [x|] eqn:E; [|intros H; inversion H; reflexivity].
+  apply eff_ttl_pos in E. pose proof M63_pos as Hm. pose proof M64_M63 as Hm2.
+  destruct (Z.ltb_spec (b + x) M63) as [H1|H1].
+  - intros H; inversion H; subst r. rewrite wrap64_id by lia. simpl.
+    destruct (Z.eqb_spec (t + x) 0); [lia|]. simpl. apply andb_true_iff. split; apply Z.leb_le; lia.
+  - destruct (Z.leb_spec M63 (a + x)) as [H2|H2]; [|discriminate].
+    destruct (Z.ltb_spec (b + x) M64) as [H3|H3]; [|discriminate]. cbn [andb].
+    intros H; inversion H; subst r. rewrite wrap64_once by lia. simpl.
+    destruct (Z.eqb_spec (t + x - M64) 0); [lia|]. simpl. apply andb_true_iff. split; apply Z.leb_le; lia.
+Qed.
+
+Lemma dstore_sound dm conc k v a b t ttl dm' : D dm conc -> 0 < a -> a <= t <= b ->
+  dstore defttl dm k v a b ttl = Some dm' -> D dm' (m_put k (v, new_expire defttl t ttl) conc).
+Proof.
+  intros HD Ha Ht. unfold dstore. destruct (new_range defttl a b ttl) as [r|] eqn:Er; [|discriminate].
+  intros H; inversion H; subst dm'. apply D_put; auto. eapply in_range_new'; eauto.
 Qed.
 
 Lemma in_range_exact' d : in_range_b d (exact d) = true.
@@ -124,10 +140,13 @@ Proof.
           - apply fl_nonneg. lia.
           - apply fl_mono. lia. }
         rewrite Esw. simpl. exact IH.
-      * destruct (Z.ltb_spec (b + g) L) as [Hk'|Hk']; [|discriminate]. inversion Hs; subst dm'.
+      * destruct ((b + g <? L) || (U <? 0)) eqn:Hk'; [|discriminate]. inversion Hs; subst dm'.
         assert (Esw : swept fl t d2 = false).
-        { unfold swept. destruct (fl d2 <=? fl t) eqn:E3; [|now rewrite andb_false_r].
-          exfalso. apply Z.leb_le in E3. pose proof (fl_near d2). pose proof (fl_near t). lia. }
+        { unfold swept. apply orb_true_iff in Hk' as [Hk'|Hk']; apply Z.ltb_lt in Hk'.
+          - destruct (fl d2 <=? fl t) eqn:E3; [|now rewrite andb_false_r].
+            exfalso. apply Z.leb_le in E3. pose proof (fl_near d2). pose proof (fl_near t). lia.
+          - pose proof (fl_neg d2 ltac:(lia)) as Hn. destruct (Z.leb_spec 0 (fl d2)); [lia|].
+            now rewrite andb_false_r. }
         rewrite Esw. simpl. constructor; [exact Hp|exact IH].
 Qed.
 
@@ -155,18 +174,18 @@ Proof.
   intros HD Hs Ha Ht. unfold dstep in Hs.
   destruct (t_op s) as [k v ttl|k v ttl|k v ttl|k|k| | | | |data|data];
     destruct (t_out s) as [|bo|[[gv gd]|]|n|l]; try discriminate; simpl.
-  - (* Set *) inversion Hs; subst dm'. split; [|exact I]. apply D_put; auto. now apply in_range_new'.
+  - (* Set *) split; [|exact I]. eapply dstore_sound; eauto.
   - (* SetIfAbsent *) destruct bo.
-    + destruct (m_get dm k) as [e|] eqn:Eg; [discriminate|]. inversion Hs; subst dm'.
-      rewrite (D_get_none dm conc k HD Eg). simpl. split; [|reflexivity]. apply D_put; auto. now apply in_range_new'.
+    + destruct (m_get dm k) as [e|] eqn:Eg; [discriminate|].
+      rewrite (D_get_none dm conc k HD Eg). simpl. split; [|reflexivity]. eapply dstore_sound; eauto.
     + destruct (m_get dm k) as [[v0 r0]|] eqn:Eg; [|discriminate]. inversion Hs; subst dm'.
       destruct (D_get_some dm conc k v0 r0 HD Eg) as (d0 & Hc & _). rewrite Hc. simpl. split; [exact HD|reflexivity].
   - (* Replace *) destruct bo.
     + destruct (m_get dm k) as [[v0 r0]|] eqn:Eg; [|discriminate].
-      destruct (sure_live r0 (t_b s)) eqn:El; [|discriminate]. inversion Hs; subst dm'.
+      destruct (sure_live r0 (t_b s)) eqn:El; [|discriminate].
       destruct (D_get_some dm conc k v0 r0 HD Eg) as (d0 & Hc & Hr). rewrite Hc.
       rewrite (sure_live_ok r0 d0 t (t_b s) El Hr (proj2 Ht)). simpl. split; [|reflexivity].
-      apply D_put; auto. now apply in_range_new'.
+      eapply dstore_sound; eauto.
     + destruct (dmiss_sound dm conc k (t_a s) t dm' HD Hs (proj1 Ht)) as [[Hc HD']|(v0 & d0 & Hc & Hex & HD')].
       * rewrite Hc. simpl. split; [exact HD'|reflexivity].
       * rewrite Hc, Hex. simpl. split; [exact HD'|reflexivity].
@@ -215,11 +234,12 @@ Theorem decided_sound_partial tr : decided_b g defttl tr = true ->
 Proof. intros Hd ts Hw. unfold spec_outputs. eapply drun_sound; eauto. constructor. Qed.
 End Sound.
 
-Theorem decided_sound_f64r g defttl tr : 0 < g -> decided_b g defttl tr = true ->
-  forall ts, within tr ts -> Forall2 out_sim (spec_outputs (f64r g) defttl tr ts) (observed tr).
+Theorem decided_sound_f64 defttl tr : decided_b 1024 defttl tr = true ->
+  forall ts, within tr ts -> Forall2 out_sim (spec_outputs f64 defttl tr ts) (observed tr).
 Proof.
-  intros Hg. apply (decided_sound_partial (f64r g) g defttl).
-  - intros x y. now apply f64r_mono.
-  - intros x. now apply f64r_nonneg.
-  - intros x. now apply f64r_near.
+  apply (decided_sound_partial f64 1024 defttl).
+  - exact f64_mono.
+  - exact f64_nonneg.
+  - exact f64_negative.
+  - exact f64_near.
 Qed.
